@@ -247,7 +247,10 @@ class SetupRiemannProblem(object):
             if (self.morphology[0] == 'R'):
                 if (angles['BR'][0]<vals[2]<angles['BR'][1]):
                     this_angle = vals[2] - angles['BR'][0]
-                    p_low = fsolve(lambda x: self.expansion_states(x, bottom_state)[0] + this_angle, p_low)[0]
+                    # the fan's pressures lie between the star and the upstream
+                    # pressure: bracket the root (fsolve started from the previous
+                    # point's pressure and silently failed for isolated points)
+                    p_low = bisect(lambda x: self.expansion_states(x, bottom_state)[0] + this_angle, p_star, pB)
                     d, r, M = self.expansion_states(p_low, bottom_state)
                     sie = p_low / r / (gB - 1.)
                     c = sqrt(gB * p_low / r)
@@ -263,7 +266,7 @@ class SetupRiemannProblem(object):
                     vals[3:] = top_star_vals
                 elif (angles['TR'][0]<vals[2]<angles['TR'][1]):
                     this_angle = vals[2] - angles['TR'][1]
-                    p_high = fsolve(lambda x: self.expansion_states(x, top_state)[0] - this_angle, p_high)[0]
+                    p_high = bisect(lambda x: self.expansion_states(x, top_state)[0] - this_angle, p_star, pT)
                     d, r, M = self.expansion_states(p_high, top_state)
                     sie = p_high / r / (gT - 1.)
                     c = sqrt(gT * p_high / r)
